@@ -32,6 +32,7 @@ func rulesC06(c *Ctx) {
 		"C06 (finalized versions stay readable until pruned) — decided: in Prune and Finalize of BOTH backends every destructive operation (batch delete/flush, txn delete/commit, metadata setter/commit, discard-timestamp) is dominated on every CFG path by the acceptance guards, each identified by the sentinel error its failing side returns and by its normalised failing condition (operands resolved to parameters / metadata getters): only-finalized, only-earliest, never-the-last, no-multipart, not-read-only for Prune; not-already-finalized, previous-finalized, multipart-version for Finalize; lone-node deletions are guarded by the not-lone set; the same guard set is required of each backend; Commit refuses finalized versions; the ABCI pruner syncs the database (success edge) between pruning and advancing the retained height, and the retained height it reports is the field written there.",
 		"NOT decided: correctness of the lone-node computation for all candidate-root histories, resurrection through versioned keys, concurrent readers, identical answers of both backends for all histories.")
 	c06Discard(c)
+	c06Inherited(c)
 	c06Round2(c, c.P.BuildIndex())
 	c06Borrowed(c)
 	const rule = "C06.guard"
@@ -476,4 +477,138 @@ func c06Borrowed(c *Ctx) {
 		}
 	}
 	c.Floor(rule, n, 12, "Item.Value callbacks in the node databases")
+}
+
+// c06Inherited — badger Finalize keeps the nodes that a discarded root merely re-created (F28).
+// Node keys are content hashes: a non-finalized root that re-creates a node identical to one of an earlier version
+// records it as "added in this version"; deleting it at this version's timestamp hides it from every finalized root
+// that inherited it. The nodes created by non-finalized roots are collected in a set; every deletion of a node key
+// that ranges over such a set must be dominated by "the key was not found by a read at the previous version's
+// timestamp" (a Txn.Get on NewTransactionAt(versionToTs(version)-1, …) answering ErrKeyNotFound).
+func c06Inherited(c *Ctx) {
+	const rule = "C06.inherit"
+	fn := c.needFn(rule, "storage/mkvs/db/badger.(*badgerNodeDB).Finalize")
+	if fn == nil {
+		return
+	}
+	c.Analysed[fname(fn)] = true
+	// sets that receive nodes created by non-finalized roots: map updates under finalizedRoots[...]==false and n.Removed==false
+	discarded := map[ssa.Value]bool{}
+	for _, b := range fn.Blocks {
+		for _, in := range b.Instrs {
+			mu, ok := in.(*ssa.MapUpdate)
+			if !ok || !strings.HasSuffix(vstr(mu.Key), ".Hash") && !strings.Contains(vstr(mu.Key), ".Hash") {
+				continue
+			}
+			nonFinal, created := false, false
+			for _, h := range heldCondVals(in) {
+				s := vstr(h.Cond)
+				if l := lookupOf(h.Cond); l != nil && !h.Pol && strings.Contains(typeStr(l.X.Type()), "TypedHash") {
+					nonFinal = true
+				}
+				if strings.HasSuffix(s, ".Removed") && !h.Pol {
+					created = true
+				}
+			}
+			if nonFinal && created {
+				discarded[mu.Map] = true
+			}
+		}
+	}
+	if len(discarded) == 0 {
+		c.Fail(rule, fname(fn)+":nodes created by non-finalized roots", c.P.Pos(fn.Pos()), "the collection of the nodes created by non-finalized roots was not found in Finalize (unresolved anchor)")
+		return
+	}
+	// the map a value ranges over (through Next/Extract/local cell)
+	var rangedMap func(v ssa.Value, d int) ssa.Value
+	rangedMap = func(v ssa.Value, d int) ssa.Value {
+		if d > 12 || v == nil {
+			return nil
+		}
+		switch x := v.(type) {
+		case *ssa.Range:
+			return x.X
+		case *ssa.Next:
+			return rangedMap(x.Iter, d+1)
+		case *ssa.Extract:
+			return rangedMap(x.Tuple, d+1)
+		case *ssa.UnOp:
+			return rangedMap(x.X, d+1)
+		case *ssa.Alloc:
+			if refs := x.Referrers(); refs != nil {
+				for _, r := range *refs {
+					if st, ok := r.(*ssa.Store); ok && st.Addr == ssa.Value(x) {
+						if m := rangedMap(st.Val, d+1); m != nil {
+							return m
+						}
+					}
+					// element of a local array (variadic pack)
+					if ia, ok := r.(*ssa.IndexAddr); ok && ia.Referrers() != nil {
+						for _, r2 := range *ia.Referrers() {
+							if st, ok := r2.(*ssa.Store); ok && st.Addr == ssa.Value(ia) {
+								if m := rangedMap(st.Val, d+1); m != nil {
+									return m
+								}
+							}
+						}
+					}
+				}
+			}
+		case *ssa.Call:
+			for _, a := range x.Call.Args {
+				if m := rangedMap(a, d+1); m != nil {
+					return m
+				}
+			}
+		case *ssa.Slice:
+			return rangedMap(x.X, d+1)
+		case *ssa.MakeInterface:
+			return rangedMap(x.X, d+1)
+		}
+		return nil
+	}
+	dels := CallsArg(fn, "Delete(nodeKeyFmt)", bWB+".Delete", 1, `global:storage/mkvs/db/badger\.nodeKeyFmt`)
+	n := 0
+	for _, d := range dels.Calls() {
+		m := rangedMap(allArgs(d)[1], 0)
+		if m == nil || !discarded[m] {
+			continue
+		}
+		n++
+		ok := false
+		for _, h := range heldCondVals(d) {
+			call, isCall := h.Cond.(*ssa.Call)
+			if !isCall || !h.Pol || calleeName(call) != "errors.Is" {
+				continue
+			}
+			// errors.Is(<error of Txn.Get on NewTransactionAt(db, versionToTs(...) - 1, ...)>, badger.ErrKeyNotFound)
+			args := call.Call.Args
+			if len(args) != 2 || !strings.HasSuffix(vstr(args[1]), "badger/v4.ErrKeyNotFound") {
+				continue
+			}
+			ex, isEx := args[0].(*ssa.Extract)
+			if !isEx {
+				continue
+			}
+			get, isGet := ex.Tuple.(*ssa.Call)
+			if !isGet || calleeName(get) != "github.com/dgraph-io/badger/v4.(*Txn).Get" {
+				continue
+			}
+			ntx, isN := get.Call.Args[0].(*ssa.Call)
+			if !isN || calleeName(ntx) != "github.com/dgraph-io/badger/v4.(*DB).NewTransactionAt" || len(ntx.Call.Args) < 2 {
+				continue
+			}
+			if bo, isBO := ntx.Call.Args[1].(*ssa.BinOp); isBO && bo.Op == token.SUB {
+				if k, isK := constInt(bo.Y); isK && k == 1 {
+					if vt, isVT := bo.X.(*ssa.Call); isVT && calleeName(vt) == "storage/mkvs/db/badger.versionToTs" {
+						ok = true
+					}
+				}
+			}
+		}
+		c.Check(ok, rule, fname(fn)+":node of a discarded root deleted only if it did not exist before this version", c.P.InstrPos(d), "the deletion is dominated by ErrKeyNotFound from a read at the previous version's timestamp", "Finalize deletes a node that a non-finalized root created in this version without checking that the node did not already exist before this version: node keys are content hashes, so a discarded root that re-created an inherited node (key removed and inserted again with the same value) makes the finalized roots of this and all later versions lose it (\"node not found in node db\")")
+	}
+	if n == 0 {
+		c.Fail(rule, fname(fn)+":node of a discarded root deleted only if it did not exist before this version", c.P.Pos(fn.Pos()), "no deletion loop over the nodes created by non-finalized roots was found")
+	}
 }
